@@ -9,7 +9,18 @@ Abstract input (small JSON):
                                                                                         # (trailing templates without spikes)
                 'nt': int (optional),                                                   # explicit number of rows of templates.npy
                                                                                         # (may be < max(tmpl)+1: guard violated)
-                'meta': {'cluster_KSLabel.tsv': {'field': 'KSLabel', 'rows': [[id, 'text'], ...]}, ...}}, ... ]}
+                'meta': {'cluster_KSLabel.tsv': {'field': 'KSLabel', 'rows': [[id, 'text'], ...]}, ...}}, ... ],
+   # how the CALLER names and passes the directories (all optional; the merged dataset must not depend on any of it: probe k of
+   # the merge is the k-th directory of the caller's list, whatever its name):
+   'names': ['imec1', 'imec0'],        # path of probe k's directory relative to the scratch root (default 'probe<k>'; may be
+                                       # nested 'b/ks', 'a/ks'; in ANY order relative to the lexicographic order of the names)
+   'pass': 'str' | 'path' | 'rel' | 'slash' | 'tuple',   # absolute str (default) / pathlib.Path / path relative to the cwd /
+                                       # str with a trailing separator / a tuple of str instead of a list
+   'out': 'merged',                    # output directory relative to the root (default 'merged'; may be nested, may sort
+                                       # before / between / after the probe names)
+   'out_exists': bool,                 # the (empty) output directory exists before the merge
+   'info': bool,                       # an explicit probe_info=[{'label': 'L<k>', 'serial': 100 + k}, ...] is passed
+   'chk_labels': bool}                 # observation option: the labels of probes.description.tsv are judged too
 
 Only the spike side (C11) varies.  The channel/template side (C12's functions, which Merger.merge() runs
 unconditionally) is filled with fixed, deliberately harmless content: 2 channels per probe, int32 channel map and index
@@ -75,25 +86,81 @@ def write_probe(p, dirpath, rate, k=0):
                 % (NC, float(rate)))
 
 
+def probe_names(inp):
+    names = inp.get('names')
+    if names is None:
+        return ['probe%d' % k for k in range(len(inp['probes']))]
+    assert len(names) == len(inp['probes']) and len(set(names)) == len(names)
+    return list(names)
+
+
 def materialise(inp, root):
-    """Writes root/probe0 .. root/probe{k-1}; returns (list of probe dirs, output dir path (not created))."""
+    """Writes root/<names[k]> (default root/probe0 .. root/probe{k-1}); returns (list of probe dirs IN THE CALLER'S ORDER,
+    output dir path (created, empty, only if inp['out_exists']))."""
     dirs = []
-    for k, p in enumerate(inp['probes']):
-        d = os.path.join(root, 'probe%d' % k)
+    for k, (p, nm) in enumerate(zip(inp['probes'], probe_names(inp))):
+        d = os.path.join(root, *nm.split('/'))
         write_probe(p, d, inp.get('rate', 100.0), k)
         dirs.append(d)
-    return dirs, os.path.join(root, 'merged')
+    out = os.path.join(root, *inp.get('out', 'merged').split('/'))
+    if inp.get('out_exists'):
+        os.makedirs(out)
+    return dirs, out
+
+
+def probe_info(inp):
+    """The explicit probe_info passed to Merger (None = the default: label = directory name)."""
+    if not inp.get('info'):
+        return None
+    return [{'label': 'L%d' % k, 'serial': 100 + k} for k in range(len(inp['probes']))]
+
+
+def expected_labels(inp):
+    """Label of probe k in probes.description.tsv: the k-th entry of probe_info, by default the name of the k-th directory."""
+    pi = probe_info(inp)
+    if pi is not None:
+        return [d['label'] for d in pi]
+    return [nm.split('/')[-1] for nm in probe_names(inp)]
+
+
+def as_passed(inp, dirs, out):
+    """(subdirs, out_dir) arguments in the form the caller passes them (inp['pass'])."""
+    from pathlib import Path
+    how = inp.get('pass', 'str')
+    if how == 'path':
+        return [Path(d) for d in dirs], Path(out)
+    if how == 'rel':
+        return [os.path.relpath(d) for d in dirs], os.path.relpath(out)
+    if how == 'slash':
+        return [d + os.sep for d in dirs], out + os.sep
+    if how == 'tuple':
+        return tuple(dirs), out
+    return list(dirs), out
+
+
+def read_probe_labels(out):
+    """The 'label' column of out/probes.description.tsv, row by row (None if the file or the column is missing)."""
+    import csv
+    p = os.path.join(out, 'probes.description.tsv')
+    if not os.path.exists(p):
+        return None
+    with open(p, newline='') as f:
+        rows = list(csv.reader(f, delimiter='\t'))
+    if not rows or 'label' not in rows[0]:
+        return None
+    j = rows[0].index('label')
+    return [r[j] for r in rows[1:] if r]
 
 
 def tree_hash(dirs):
     """{relative path: sha256} over every file under the probe directories (byte identity of the inputs)."""
     out = {}
-    for d in dirs:
+    for k, d in enumerate(dirs):
         for base, _, files in sorted(os.walk(d)):
             for fn in sorted(files):
                 p = os.path.join(base, fn)
                 with open(p, 'rb') as f:
-                    out[os.path.basename(d) + '/' + os.path.relpath(p, d)] = hashlib.sha256(f.read()).hexdigest()
+                    out['%d:%s/%s' % (k, os.path.basename(d), os.path.relpath(p, d))] = hashlib.sha256(f.read()).hexdigest()
     return out
 
 
